@@ -239,7 +239,7 @@ class NDArr:
             key = (key,)
         key = tuple(_index_value(k) for k in key)
         adv = [k for k in key if isinstance(k, (NDArr, list))]
-        if adv:
+        if len(adv) > 1:
             return self._fancy(key), None
         n_real = sum(1 for k in key if k is not None and k is not Ellipsis)
         if n_real > self.ndim:
@@ -265,6 +265,21 @@ class NDArr:
                 pos = list(range(n))[slice(_opt_int(k.start), _opt_int(k.stop), _opt_int(k.step))]
                 sel.append(pos)
                 newshape.append(len(pos))
+            elif isinstance(k, (NDArr, list)):
+                # one integer index array (a partition vector): its axis stays in place; the caller copies on a load
+                items = k.flat() if isinstance(k, NDArr) else list(k)
+                if isinstance(k, NDArr) and k.ndim != 1:
+                    raise Unsupported("advanced indexing with a non 1-d index array")
+                if any(isinstance(x, bool) for x in items):
+                    raise Unsupported("boolean mask index")
+                pos = []
+                for x in items:
+                    i = _as_int(x)
+                    if not -n <= i < n:
+                        raise PyRaise("IndexError", f"index {i} out of range for axis of size {n}")
+                    pos.append(i % n)
+                sel.append(pos)
+                newshape.append(len(pos))
             else:
                 i = _as_int(k)
                 if not -n <= i < n:
@@ -273,7 +288,7 @@ class NDArr:
             ax += 1
         strides = [_prod(self.shape[a + 1:]) for a in range(self.ndim)]
         ix = [self.ix[sum(p * s for p, s in zip(idx, strides))] for idx in itertools.product(*sel)]
-        if not newshape:
+        if not newshape and not adv:
             return None, ix[0]          # a single element
         return NDArr(self.st, newshape, ix), None
 
